@@ -2,7 +2,7 @@
 import importlib
 import sys
 
-MODELS = ["vt.ref.canonjson", "vt.ref.redact"]
+MODELS = ["vt.ref.canonjson", "vt.ref.redact", "vt.ref.ed25519", "vt.ref.event_sig"]
 
 
 def main():
